@@ -222,22 +222,26 @@ def sort_of(ty):
         s = z3.BoolSort()
     elif k == 'opt':
         inner = sort_of(ty.inner)
-        d = z3.Datatype(sort_name(ty))
-        d.declare('none')
-        d.declare('some', ('val', inner))
+        # constructor / accessor names are unique per datatype (cvc5 rejects overloaded names)
+        nm = sort_name(ty)
+        d = z3.Datatype(nm)
+        d.declare('none_' + nm)
+        d.declare('some_' + nm, ('val_' + nm, inner))
         s = d.create()
     elif k == 'list':
         s = z3.SeqSort(sort_of(ty.elem))
     elif k == 'tuple':
-        d = z3.Datatype(sort_name(ty))
-        d.declare('mk', *[(f'i{n}', sort_of(t)) for n, t in enumerate(ty.items)])
+        nm = sort_name(ty)
+        d = z3.Datatype(nm)
+        d.declare('mk_' + nm, *[(f'{nm}_i{n}', sort_of(t)) for n, t in enumerate(ty.items)])
         s = d.create()
     elif k == 'rec':
         s = rec_sort(ty.name)
     elif k == 'dict':
-        d = z3.Datatype(sort_name(ty))
-        d.declare('mk', ('m', z3.ArraySort(sort_of(ty.k), sort_of(TOpt(ty.v)))),
-                  ('keys', z3.SeqSort(sort_of(ty.k))))
+        nm = sort_name(ty)
+        d = z3.Datatype(nm)
+        d.declare('mk_' + nm, (nm + '_m', z3.ArraySort(sort_of(ty.k), sort_of(TOpt(ty.v)))),
+                  (nm + '_keys', z3.SeqSort(sort_of(ty.k))))
         s = d.create()
     elif k == 'set':
         s = z3.ArraySort(sort_of(ty.elem), z3.BoolSort())
@@ -264,15 +268,18 @@ def rec_sort(name):
     if r.sort is None:
         d = z3.Datatype(name)
         flds = []
+        keys = []
         if r.tagged:
-            flds.append(('cls__', z3.IntSort()))
+            flds.append((f'{name}__cls', z3.IntSort()))
+            keys.append('cls__')
         for f, t in r.fields.items():
             flds.append((f'{name}__{f}', sort_of(t)))
+            keys.append(f)
         d.declare('mk_' + name, *flds)
         r.sort = d.create()
         r.cons = r.sort.constructor(0)
-        for i, (f, _) in enumerate(flds):
-            r.acc[f.split('__', 1)[1] if f != 'cls__' else 'cls__'] = r.sort.accessor(0, i)
+        for i, k in enumerate(keys):
+            r.acc[k] = r.sort.accessor(0, i)
     return r.sort
 
 
